@@ -10,6 +10,7 @@ import (
 	"fmt"
 	"os"
 	"path/filepath"
+	"runtime"
 	"strconv"
 	"strings"
 	"sync"
@@ -409,6 +410,33 @@ func TestHedgedRetryEvents(t *testing.T) {
 		}
 		runHedgedRetry(t, st, sc)
 	})
+	if os.Getenv("VERIF_LEAKCHECK") != "" {
+		// run by the C19 check: when every execution has returned, no goroutine of a hedged branch may still sit in the
+		// retry policy (a branch that handles its failure after another branch exhausted the retries must come out too)
+		var stuck int
+		var sample string
+		for w := harness.Wait(15 * time.Second); ; {
+			buf := make([]byte, 4<<20)
+			dump := string(buf[:runtime.Stack(buf, true)])
+			stuck, sample = 0, ""
+			for _, g := range strings.Split(dump, "\n\n") {
+				if strings.Contains(g, "failsafe-go/retrypolicy.") || strings.Contains(g, "failsafe-go/hedgepolicy.") {
+					stuck++
+					if sample == "" {
+						sample = g
+					}
+				}
+			}
+			if stuck == 0 || w.Expired() {
+				break
+			}
+			time.Sleep(20 * time.Millisecond)
+		}
+		if stuck > 0 {
+			harness.WriteViolation("C19", "TestHedgedRetryEvents", "leak-hedged-retry-goroutine", nil, nil, fmt.Sprintf("%d goroutines are still inside the retry / hedge policy 15s after every execution returned, e.g.\n%s", stuck, sample))
+			t.Fatalf("[C19 sig=leak-hedged-retry-goroutine] %d goroutines are still inside the retry / hedge policy 15s after every execution returned, e.g.\n%s", stuck, sample)
+		}
+	}
 }
 
 func runHedgedRetry(t harness.TB, st *harness.Stats, sc hedgedScen) {
